@@ -166,7 +166,7 @@ static int cmd_work(int argc, char **argv) {
 	int hashfd = ::open((base + ".hashes").c_str(), O_CREAT | O_WRONLY | O_APPEND, 0644);
 	signal(SIGVTALRM, on_vtalrm);
 	double last_sum = now_s();
-	int watchdog = getenv("VERIF_WATCHDOG_S") ? atoi(getenv("VERIF_WATCHDOG_S")) : 20;
+	int watchdog = getenv("VERIF_WATCHDOG_S") ? atoi(getenv("VERIF_WATCHDOG_S")) : 10;
 	bool stop = false;
 
 	auto flush_state = [&]() {
@@ -298,7 +298,7 @@ static int cmd_replay(int argc, char **argv) {
 	Scenario *sc = find_scenario(p.property);
 	if (!sc) { fprintf(stderr, "no scenario for %s\n", p.property.c_str()); return 2; }
 	signal(SIGVTALRM, on_vtalrm);
-	arm_watchdog(getenv("VERIF_WATCHDOG_S") ? atoi(getenv("VERIF_WATCHDOG_S")) : 20);
+	arm_watchdog(getenv("VERIF_WATCHDOG_S") ? atoi(getenv("VERIF_WATCHDOG_S")) : 10);
 	RunResult r = sc->execute(p, nullptr);
 	g_sim.fs = nullptr;
 	arm_watchdog(0);
@@ -324,7 +324,7 @@ static int run_child(Scenario *sc, const Plan &p) {
 		dup2(dn, 1);
 		dup2(dn, 2);
 		signal(SIGVTALRM, on_vtalrm);
-		arm_watchdog(20);
+		arm_watchdog(10);
 		RunResult r = sc->execute(p, nullptr);
 		_exit(r.ok ? 0 : 1);
 	}
